@@ -39,6 +39,8 @@ StepSwap(x) ==
           \cup (IF ~Listed(b, win) THEN {V("ExactlyOneBatch", ToString(b.objs))} ELSE {})
           \cup (IF ~Described(b, win) THEN {V("Described", ToString(<<b.ia, b.iu, b.id, b.gnew, b.tnew>>))} ELSE {})
           \cup (IF ~Chained(nrb, k) THEN {V("DataChained", ToString(<<b.gcur, b.tcur>>))} ELSE {})
+          \* the batch a reconciliation holds is its own: events arriving later belong to the next one and leave it alone
+          \cup (IF ~x.stable THEN {V("ExactlyOneBatch", "the batch handed out before this one changed while it was held")} ELSE {})
     /\ drift' = IF Listed(b, win) /\ Described(b, win) /\ Chained(nrb, k) /\ b # ch THEN drift \cup {V("BatchDiffers", ToString(b))} ELSE drift
     /\ rb' = nrb
     /\ ch' = NextCh(ch) /\ win' = <<>>
